@@ -504,11 +504,12 @@ theorem sameSite_spec (a b : Pos) (h : sameSite a b = true) :
   exact ⟨m0, m1, m2, e0, e1, e2⟩
 
 /-- **Extinction from the partner relation** (what `hasAllPairs_sound` delivers): if every atom has a partner with the same
-scattering factor at `p + t` modulo a lattice vector, and no two atoms share a site, the partner map is a permutation and
+scattering factor at `p + t` modulo a lattice vector, and no two atoms *of equal scattering factor* share a site (a site may be shared by different species, e.g. partial
+occupancies), the partner map is a permutation and
 `F(h) = 0` whenever `t·h ∉ ℤ`. -/
 theorem extinction_of_partners {ι : Type*} [Fintype ι] (w : ι → Idx → ℝ) (p : ι → Fin 3 → ℝ) (V : ℝ) (h : Idx) (t : Fin 3 → ℝ)
     (hpart : ∀ j, ∃ j', w j' h = w j h ∧ ∃ m : Fin 3 → ℤ, ∀ a, p j' a = p j a + t a + (m a : ℝ))
-    (hdist : ∀ j j', (∃ m : Fin 3 → ℤ, ∀ a, p j a = p j' a + (m a : ℝ)) → j = j')
+    (hdist : ∀ j j', w j h = w j' h → (∃ m : Fin 3 → ℤ, ∀ a, p j a = p j' a + (m a : ℝ)) → j = j')
     (hth : ¬ ∃ z : ℤ, dotp t h = z) :
     SF w p V h = 0 := by
   classical
@@ -517,7 +518,7 @@ theorem extinction_of_partners {ι : Type*} [Fintype ι] (w : ι → Idx → ℝ
     intro j j' hjj
     obtain ⟨m, hm⟩ := hσp j
     obtain ⟨m', hm'⟩ := hσp j'
-    apply hdist
+    apply hdist j j' (by rw [← hσw j, ← hσw j', hjj])
     refine ⟨fun a => m' a - m a, fun a => ?_⟩
     have h1 := hm a
     have h2 := hm' a
